@@ -160,6 +160,17 @@ DIRECTED_CONFIGS += [('wedged', 'wedged-poly-pen0-trans', 0, 0, 0, 1), ('wedged'
 DIRECTED_GEN = {'noop': A.gen_noop_move_history, 'addmove': A.gen_addmove_history, 'only': A.gen_homogeneous_history,
                 'wedged': A.gen_wedged_history, 'pocket': A.gen_pocket_history}
 # "zbend" scene family (orthogonal, nudging on, default options): 2-3 connectors with Z-bends in a shared corridor region, one channel narrowed by an extra shape
+# shapeBufferDistance > 0 in histories (seeded change C06-8, DESIGN 9.20): rectangles only; route_ok against the ROUTING polygons (rectangles grown by the buffer
+# distance) after every processTransaction.  "bufzone" = a rectangle added / moved / grown so that only its buffer zone lies across a connector's current route;
+# the other families are the existing generators scaled by S and shrunk by buf (avoid_lib.buffered_ops).  (family, name, mode, pen, nudge, trans, buf, S)
+BUF_HIST_CONFIGS = [('bufzone', 'bufzone-poly-pen0-buf10-trans', 0, 0, 0, 1, 10, 11), ('bufzone', 'bufzone-poly-pen10-buf4-notrans', 0, 10, 0, 0, 4, 5),
+                    ('bufzone', 'bufzone-orth-nonudge-buf4-trans', 1, 10, 0, 1, 4, 5),
+                    ('noop', 'noop-poly-pen0-buf4-trans', 0, 0, 0, 1, 4, 5), ('addmove', 'addmove-poly-pen0-buf10-trans', 0, 0, 0, 1, 10, 11),
+                    ('only', 'only-orth-nonudge-buf4-trans', 1, 10, 0, 1, 4, 5), ('only', 'only-poly-pen0-buf10-notrans', 0, 0, 0, 0, 10, 11)]
+# dual-mode routers (harness mode 2 = PolyLineRouting | OrthogonalRouting) with routing-type switches on existing connectors (op Y = ConnRef::setRoutingType; seeded change C03-8,
+# DESIGN 9.20): family "typeswitch" (avoid_lib.gen_typeswitch_history; rectangles, endpoints outside every box), route_ok after every processTransaction, and an orthogonal
+# connector's route must be axis-parallel.  (name, pen, nudge, trans)
+TYPESWITCH_CONFIGS = [('typeswitch-dual-pen10-trans', 10, 0, 1), ('typeswitch-dual-pen10-notrans', 10, 0, 0), ('typeswitch-dual-pen10-nudge4-trans', 10, 4, 1)]
 ZBEND_CONFIGS = [('zbend-orth-nudge4', 1, 10, 0, 4), ('zbend-orth-pen50-nudge8', 1, 50, 0, 8)]
 FP_DISPLACED = 'hyperedge_free_terminal_displaced'
 FH_ASSERT = 'orthogonalDirectionsCount(thisDirs) > 0'       # C11 known finding assert:makepath.cpp:orthogonalDirectionsCount (DESIGN 6 F-h)
@@ -167,7 +178,7 @@ FH_ASSERT = 'orthogonalDirectionsCount(thisDirs) > 0'       # C11 known finding 
 
 def hist_script(h, upto=None):
     ops = h['ops'] if upto is None else h['ops'][:upto]
-    return ['R %d %s 0.0 %s %d' % (h['mode'], repr(float(h['pen'])), repr(float(h['nudge'])), h['trans'])] + [A.hist_op_str(o) for o in ops] + ['X']
+    return ['R %d %s %s %s %d' % (h['mode'], repr(float(h['pen'])), repr(float(h.get('buf', 0))), repr(float(h['nudge'])), h['trans'])] + [A.hist_op_str(o) for o in ops] + ['X']
 
 
 def check_histories(res, exe, drv, hists, stats, samples):
@@ -207,7 +218,13 @@ def check_histories(res, exe, drv, hists, stats, samples):
             d = run['dumps'][k]
             k += 1
             ids = sorted(shapes)
-            polys = [shapes[j] for j in ids]
+            # shapeBufferDistance > 0 (rectangles only, DESIGN 9.20): the obstacles are the routing polygons = the rectangles grown by the buffer distance
+            oshapes = A.inflate_shapes(shapes, h.get('buf', 0))
+            polys = [oshapes[j] for j in ids]
+            if h.get('buf', 0) and {j: [tuple(q) for q in P] for j, P in d['bshapes'].items()} != {j: [tuple(map(float, q)) for q in oshapes[j]] for j in ids}:
+                res.violation({'what': 'routingPolygon() of a rectangle is not the rectangle grown by shapeBufferDistance', 'router': d['bshapes'], 'expected': oshapes,
+                               'script': hist_script(h, i + 1), 'config': h['cfg']})
+                break
             rpolys = {j: [(int(x), int(y)) for x, y in P] for j, P in d['shapes'].items()}
             if rpolys != {j: [tuple(q) for q in shapes[j]] for j in ids}:
                 res.violation({'what': 'the router\'s shapes differ from the scene the history describes (contains family; see C06)',
@@ -217,7 +234,7 @@ def check_histories(res, exe, drv, hists, stats, samples):
                 st = conns[c]
                 left = False
                 for e in (0, 1):
-                    now = set(j for j in ids if A.inside_strict(shapes[j], st[e]))
+                    now = set(j for j in ids if A.inside_strict(oshapes[j], st[e]))
                     if was_inside.get((c, e), set()) - now:
                         left = True
                     was_inside.setdefault((c, e), set()).update(now)
@@ -241,11 +258,17 @@ def check_histories(res, exe, drv, hists, stats, samples):
             samples.append({'family': 'contains', 'config': h['cfg'], 'history': [A.hist_op_str(o) for o in h['ops'][:i + 1]], 'shapes_now': polys,
                             'src': s, 'dst': t, 'displayRoute': route, 'route_ok': a})
         off = A.parse_chk(a)
+        if not off and h['mode'] == 2 and d.get('ctype', {}).get(c) == 2 and not A.is_orthogonal(route):
+            stats['violations'] += 1
+            res.violation({'what': 'an orthogonal connector of a dual-mode router is displayed with a diagonal segment', 'family': h.get('family'), 'config': h['cfg'],
+                           'history': [A.hist_op_str(o) for o in h['ops'][:i + 1]], 'shapes': polys, 'connector': c, 'src': s, 'dst': t, 'displayRoute': route,
+                           'script': hist_script(h, i + 1), 'replay': './check C03 --replay <this file>'})
+            continue
         if not off:
             continue
         obj = {'what': 'displayRoute fails the verified checker route_ok on the CURRENT scene after this history (a shape is exempt only while it '
                        'contains an endpoint now)', 'family': h.get('family', 'contains'), 'config': h['cfg'], 'mode': h['mode'], 'segmentPenalty': h['pen'],
-               'idealNudgingDistance': h['nudge'], 'transactions': h['trans'], 'history': [A.hist_op_str(o) for o in h['ops'][:i + 1]],
+               'idealNudgingDistance': h['nudge'], 'shapeBufferDistance': h.get('buf', 0), 'transactions': h['trans'], 'history': [A.hist_op_str(o) for o in h['ops'][:i + 1]],
                'shapes': polys, 'connector': c, 'src': s, 'dst': t, 'displayRoute': route, 'raw_route': d['route'].get(c),
                'a_shape_that_contained_an_endpoint_earlier_no_longer_does': left,
                'offenders_(segment,shape,degenerate_chord)': off, 'script': hist_script(h, i + 1),
@@ -570,6 +593,33 @@ def run(tier):
             for t in tags:
                 stats['directed_variants'][fam + ':' + t] = stats['directed_variants'].get(fam + ':' + t, 0) + 1
             hists.append({'cfg': name, 'mode': mode, 'pen': pen, 'nudge': nudge, 'trans': trans, 'ops': ops, 'family': fam})
+    rb = C.SplitMix64(C.get_seed() ^ 0xC0308)
+    for (fam, name, mode, pen, nudge, trans, buf, S) in BUF_HIST_CONFIGS:
+        k = tries = 0
+        while k < (12 if tier == 'quick' else 100) and tries < 4000:
+            tries += 1
+            if fam == 'bufzone':
+                ops, tags = A.gen_bufzone_history(rb, buf)
+            else:
+                ops, tags = DIRECTED_GEN[fam](rb, rect_only=True)
+                ops = A.buffered_ops(ops, S, buf) if ops else None
+            if ops is None or not A.buffered_history_valid(ops, buf):
+                continue
+            k += 1
+            for t in tags:
+                stats['directed_variants']['buf:' + fam + ':' + t] = stats['directed_variants'].get('buf:' + fam + ':' + t, 0) + 1
+            hists.append({'cfg': name, 'mode': mode, 'pen': pen, 'nudge': nudge, 'trans': trans, 'ops': ops, 'family': fam, 'buf': buf})
+    for (name, pen, nudge, trans) in TYPESWITCH_CONFIGS:
+        k = 0
+        while k < (25 if tier == 'quick' else 200):
+            ops, tags = A.gen_typeswitch_history(rb)
+            if ops is None:
+                continue
+            k += 1
+            for t in tags:
+                t = 'typeswitch:' + (t if t.startswith(('alone', 'end_', 'switch_')) else t.split(':')[0])
+                stats['directed_variants'][t] = stats['directed_variants'].get(t, 0) + 1
+            hists.append({'cfg': name, 'mode': 2, 'pen': pen, 'nudge': nudge, 'trans': trans, 'ops': ops, 'family': 'typeswitch'})
     for i in range(0, len(hists), 200):
         check_histories(res, exe, drv, hists[i:i + 200], stats, samples)
     hscenes = []
